@@ -29,9 +29,9 @@ def mc_timeout(dev=False, export=False):
 class TimedAgent(threading.Thread):
     """answers the first request it sees according to a schedule of (offset_ticks, kind)"""
 
-    def __init__(self, cfg, sched, tick=TICK):
+    def __init__(self, cfg, sched, tick=TICK, reply="response"):
         super().__init__(daemon=True)
-        self.cfg, self.sched, self.tick = cfg, sorted(sched), tick
+        self.cfg, self.sched, self.tick, self.reply = cfg, sorted(sched), tick, reply
         from vlib import rawdrv
         self.net = rawdrv.next_net()          # IPv4 / IPv6 loopback, default / explicit ToS and buffer sizes in rotation
         self.sock, _, self.host, self.port = rawdrv.agent_socket(self.net)
@@ -50,17 +50,41 @@ class TimedAgent(threading.Thread):
             dt = self.t0 + off * self.tick - time.monotonic()
             if dt > 0:
                 time.sleep(dt)
-            d = a.reply(self.cfg, req, vbs) if kind == "match" else a.reply(self.cfg, req, vbs, reqid=(req.reqid + 7) & 0x7FFFFFFF)
+            if kind != "match":
+                d = a.reply(self.cfg, req, vbs, reqid=(req.reqid + 7) & 0x7FFFFFFF)
+            elif self.reply == "report":
+                # the matching reply is a Report (the agent could not authenticate / place the request): the call ends THEN, with SnmpAuthError
+                d = a.report(self.cfg, req, oid=(1, 3, 6, 1, 6, 3, 15, 1, 1, 5, 0), counter=3)
+            elif self.reply == "nosuch":
+                d = a.reply(self.cfg, req, [(bytes(n), ("noSuchInstance",)) for n in req.names])
+            else:
+                d = a.reply(self.cfg, req, vbs)
             try:
                 self.sock.sendto(d, peer)
             except OSError:
                 return
 
 
-def run_case(client, cfg, strays, match, tick=TICK):
+def exc_name(e):
+    """the library's exception classes are exported under their documented names; the runtime classes may be subclasses of them"""
+    names = [c.__name__ for c in type(e).__mro__]
+    for n in names:
+        for doc in ("NoSuchInstance", "SnmpAuthError"):
+            if n == doc or n == "Py" + doc:
+                return doc
+    return names[0]
+
+
+def split_cfg(cn):
+    """'v3-md5#report' -> ('v3-md5', 'report'): the kind of the matching reply rides on the configuration name"""
+    base, _, kind = cn.partition("#")
+    return base, (kind or "response")
+
+
+def run_case(client, cfg, strays, match, tick=TICK, reply="response"):
     from gufo.snmp import SnmpVersion
     sched = [(s, "stray") for s in strays] + ([(match, "match")] if match else [])
-    agent = TimedAgent(cfg, sched, tick)
+    agent = TimedAgent(cfg, sched, tick, reply)
     agent.start()
     ver = {"v1": SnmpVersion.v1, "v2c": SnmpVersion.v2c, "v3": SnmpVersion.v3}[cfg.ver]
     kw = dict(port=agent.port, community=cfg.community, version=ver, timeout=T * tick, tos=agent.net[2], send_buffer=agent.net[3], recv_buffer=agent.net[4])
@@ -75,7 +99,7 @@ def run_case(client, cfg, strays, match, tick=TICK):
             s.get("1.3.6.1.2.1.1.3.0")
             result = "delivered"
         except BaseException as e:  # noqa
-            result = type(e).__name__
+            result = exc_name(e)
         el = time.monotonic() - t0
     else:
         from gufo.snmp.async_client import SnmpSession
@@ -87,7 +111,7 @@ def run_case(client, cfg, strays, match, tick=TICK):
                 await s.get("1.3.6.1.2.1.1.3.0")
                 r = "delivered"
             except BaseException as e:  # noqa
-                r = type(e).__name__
+                r = exc_name(e)
             return r, time.monotonic() - t0
         result, el = asyncio.run(go())
     try:
@@ -315,7 +339,7 @@ def run_pair(client, cfg, stray_at, second_reply_at):
 
 
 def event(client, cfgname, strays, match, result, el, tick=TICK, signals=False):
-    return dict(ev="Timed", signals=bool(signals), client=client, ver=cfgname, T=T, tick_ms=int(tick * 1000), strays=list(strays), match=match, result=result, elapsed_ms=el,
+    return dict(ev="Timed", signals=bool(signals), client=client, ver=cfgname, reply=split_cfg(cfgname)[1], T=T, tick_ms=int(tick * 1000), strays=list(strays), match=match, result=result, elapsed_ms=el,
                 slack_ms=SLACK_MS, early_ms=EARLY_MS)
 
 
@@ -362,6 +386,12 @@ def run(tier):
         for k in [((1,), 3), ((1,), 0)] + ([((), 3), ((2,), 0)] if thorough else []):
             if k in sch:
                 cases.append((client, "v2c", k, LONG_TICK))
+    # the matching reply is an ERROR reply (a Report for v3, an exception value for v2c): the call ends when it arrives - with that
+    # error, not later and not with TimeoutError
+    for client in ("sync", "async"):
+        for cn, k in [("v3-md5#report", ((), 3)), ("v3-md5#report", ((1,), 3)), ("v3-noauth#report", ((), 2)), ("v2c#nosuch", ((1,), 3)), ("v2c#nosuch", ((), 1))] + \
+                     ([("v3-sha1-aes#report", ((2,), 3)), ("v3-md5#report", ((), 1))] if thorough else []):
+            cases.append((client, cn, k, TICK))
     # stray floods across the deadline (no reply): TimeoutError at the timeout, nothing else
     for cn in (["v2c", "v3-md5"] if not thorough else ["v2c", "v1", "v3-md5"]):
         for client in ("sync", "async"):
@@ -374,7 +404,7 @@ def run(tier):
         client, cn, (strays, match), tick = c
         if tick < 0:
             return run_flood(client, std[cn], -tick)
-        return run_case(client, std[cn], strays, match, tick)
+        return run_case(client, std[split_cfg(cn)[0]], strays, match, tick, reply=split_cfg(cn)[1])
 
     def worker(items):
         for c in items:
@@ -581,7 +611,7 @@ def replay(path):
         if r.get("tick", TICK) < 0:
             res = run_flood(r["client"], std[r["cfg"]], -r["tick"])
         else:
-            res = run_case(r["client"], std[r["cfg"]], tuple(r["strays"]), r["match"], r.get("tick", TICK))
+            res = run_case(r["client"], std[split_cfg(r["cfg"])[0]], tuple(r["strays"]), r["match"], r.get("tick", TICK), reply=split_cfg(r["cfg"])[1])
         rec = trace.Recorder("c18-replay")
         rec.emit(event(r["client"], r["cfg"], r["strays"], r["match"], *res, tick=abs(r.get("tick", TICK))))
         v = trace.validate("TraceTimeout.tla", "TraceTimeout.cfg", rec.close())
